@@ -53,7 +53,7 @@ var polNames = map[string]int{"uniform": core.PolUniform, "sticky": core.PolStic
 func coreCfg(c *sim.Case, script []int16, strict, keepLog bool) core.Config {
 	s := c.Sched
 	cfg := core.Config{Seed: s.Seed, Policy: polNames[s.Policy], StickyPct: s.StickyPct, PCTDepth: s.PCTDepth,
-		PCTLen: s.PCTLen, FreezeAt: s.FreezeAt, Probe: s.Probe, TickPct: s.TickPct, MaxSteps: s.MaxSteps, KeepLog: keepLog}
+		PCTLen: s.PCTLen, FreezeAt: s.FreezeAt, Probe: s.Probe, TickPct: s.TickPct, SpinBurn: s.SpinBurn, MaxSteps: s.MaxSteps, KeepLog: keepLog}
 	for _, st := range s.Stalls {
 		cfg.Stalls = append(cfg.Stalls, core.Stall{T: st.T, At: st.At, For: st.For})
 	}
@@ -355,6 +355,9 @@ func Main(spec *Spec) {
 		if res.FairRounds > 0 {
 			out.Probes["fair_retry_round"] += res.FairRounds
 		}
+		if res.Burns > 0 {
+			out.Faults["spin_attempt_burnt_without_progress"] += res.Burns
+		}
 		for k, n := range res.KindCount {
 			if n > 0 {
 				out.Probes["step:"+core.Kind(k).String()] += n
@@ -471,7 +474,7 @@ func Overlapped(recs [][]sim.Rec, t, i int) bool {
 
 // GenSched draws a scheduler configuration (swarm).
 func GenSched(r *sim.Rng, nThreads, totalOps int, probe int, allowFreeze bool) *sim.SchedCfg {
-	s := &sim.SchedCfg{Seed: r.U64() >> 12, FreezeAt: -1, Probe: probe, MaxSteps: 4000}
+	s := &sim.SchedCfg{Seed: r.U64() >> 12, FreezeAt: -1, Probe: probe, MaxSteps: 20000}
 	switch r.Pick(3, 4, 3) {
 	case 0:
 		s.Policy = "uniform"
@@ -492,6 +495,12 @@ func GenSched(r *sim.Rng, nThreads, totalOps int, probe int, allowFreeze bool) *
 	}
 	if probe >= 0 && allowFreeze && r.Pct(50) {
 		s.FreezeAt = r.N(est)
+	}
+	if r.Pct(3) {
+		// long spinning: a waiter burns more than a thousand attempts while nobody makes
+		// progress (a stalled peer), so that bounded-spin fallbacks are reached
+		s.SpinBurn = r.Range(1030, 1300)
+		s.MaxSteps = 40000
 	}
 	return s
 }
